@@ -388,4 +388,19 @@ PROPS['C15'].update({
     'level_note': 'The corollary step (same spec functions => same label-level lattice) is not a machine-checked obligation; rows handled by duality of the symmetric theory.',
 })
 
+PROPS['C13']['units'] += ['definitions.' + n for n in ('remove_empty_objects', 'remove_empty_properties', '__init__', '__eq__', 'objects', 'properties', 'bools')] + \
+    ['tools.Unique.__init__', 'tools.Unique.issuperset', 'lemma.fresh_equal']
+PROPS['C13'].update({
+    'level': 'proof',
+    'proved_part': 'every editing operation against the ordered-table view (two duplicate-free name sequences, a set of true cells): cell assignment, add/set/remove/rename/move of objects and '
+                   'properties, remove_empty_*, in-place union/intersection (|=, &=) with conflict detection; the constructor establishes well-formedness and the no-residue invariant, '
+                   'every operation preserves them, computes the model\'s view and return value, and a rejected call raises before any store; objects/properties/bools render the view '
+                   '(one row per object, one cell per property); equality with a fresh definition built from the own triple follows from the invariant. All histories follow by induction on the history.',
+    'bounded_part': 'aliased calls (d |= d), comparison with a plain triple, replay; assumed list lemmas fold_dedup / erase_fold_keep / fold_len and the stdlib Set mixins __and__/__iand__ on Unique',
+    'level_text': 'All editing operations, the constructor and the container class are under contract with every obligation discharged, for all states and arguments.',
+    'level_note': 'Assumes the list/set builtin contracts (algebraic SEQ theory validated against CPython), A-HEAP, three list lemmas about the spec functions (validated by enumeration; Lean proofs where available '
+                  'are in lemmas/Seq.lean), and other is not self for the binary operations.',
+})
+PROPS['C14']['units'] += ['definitions.__init__', 'definitions.__eq__', 'definitions.objects', 'definitions.properties', 'definitions.bools', 'lemma.fresh_equal']
+
 NOT_APPLICABLE = {}
